@@ -10,7 +10,7 @@ when one of the steps disappears from run_engine.py, and `C06_clean_at_idle` wit
 PARTIAL: flyers (kickoff / collect / backstop_collect) and the dispatcher's per-call subscriptions are
 not part of the engine model (the latter is checked on the implementation only).
 -/
-import BlueskyVerif.Lemmas.C06Frame
+import BlueskyVerif.Lemmas.C06Good
 
 namespace BlueskyVerif.C06
 open BlueskyVerif.Engine
@@ -33,18 +33,6 @@ theorem set_registers_device_before_calling (s : EState) (m : Msg) :
     (∃ c, (cmdSet s m).1.calls = s.calls ++ [c] ∧ c.dev = m.obj.getD "" ∧ c.op = "set") ∧
     (cmdSet s m).1.staged = s.staged := cmdSet_spec s m
 
-/-- every `set` entry of the ledger belongs to a device that is in `_movable_objs_touched` -/
-def MovedInv (s : EState) : Prop := ∀ c ∈ s.calls, c.op = "set" → c.dev ∈ s.moved
-
-theorem movedInv_of_dv {s s' : EState} (h : dv s' = dv s) (hi : MovedInv s) : MovedInv s' := by
-  intro c hc hop
-  have hk : keyOp c = true := by simp [keyOp, hop]
-  have hm : c ∈ (dv s').keyCalls := List.mem_filter.mpr ⟨hc, hk⟩
-  rw [h] at hm
-  have := hi c (List.mem_filter.mp hm).1 hop
-  have hmv : s'.moved = s.moved := congrArg Dv.moved h
-  rw [hmv]; exact this
-
 /-! ## staging -/
 
 /-- `stage` / `unstage` update `_staged` exactly like the specification `stagedStep` (insert on a
@@ -64,36 +52,10 @@ theorem other_commands_leave_staging_and_motion_alone (s : EState) (m : Msg)
   have h := runCommand_dv s m h1 h2 h3
   exact ⟨congrArg Dv.staged h, congrArg Dv.moved h, congrArg Dv.keyCalls h⟩
 
-/-- `MovedInv` is an invariant of command execution: for EVERY message -/
-theorem movedInv_runCommand (s : EState) (m : Msg) (hi : MovedInv s) : MovedInv (runCommand s m).1 := by
-  by_cases h1 : m.cmd = "set"
-  · have e : runCommand s m = cmdSet s m := by unfold runCommand; simp [h1]
-    rw [e]
-    obtain ⟨hin, hmono, ⟨c, hc, hdev, _⟩, _⟩ := cmdSet_spec s m
-    intro c' hc' hop
-    rw [hc] at hc'
-    rcases List.mem_append.mp hc' with h | h
-    · exact hmono _ (hi c' h hop)
-    · simp only [List.mem_singleton] at h; subst h; rw [hdev]; exact hin
-  · by_cases h2 : m.cmd = "stage"
-    · have e : runCommand s m = cmdStage s m "stage" := by unfold runCommand; simp [h2]
-      rw [e]
-      obtain ⟨_, hc, hm⟩ := cmdStage_spec s m "stage"
-      intro c' hc' hop
-      rw [hc] at hc'; rw [hm]
-      rcases List.mem_append.mp hc' with h | h
-      · exact hi c' h hop
-      · simp only [List.mem_singleton] at h; subst h; simp at hop
-    · by_cases h3 : m.cmd = "unstage"
-      · have e : runCommand s m = cmdStage s m "unstage" := by unfold runCommand; simp [h3]
-        rw [e]
-        obtain ⟨_, hc, hm⟩ := cmdStage_spec s m "unstage"
-        intro c' hc' hop
-        rw [hc] at hc'; rw [hm]
-        rcases List.mem_append.mp hc' with h | h
-        · exact hi c' h hop
-        · simp only [List.mem_singleton] at h; subst h; simp at hop
-      · exact movedInv_of_dv (runCommand_dv s m h1 h2 h3) hi
+/-- `MovedInv` (every `set` entry of the ledger belongs to a device in `_movable_objs_touched`) is an
+    invariant of command execution: for EVERY message -/
+theorem movedInv_runCommand (s : EState) (m : Msg) (hi : MovedInv s) : MovedInv (runCommand s m).1 :=
+  Engine.movedInv_runCommand s m hi
 
 /-! ## the outer `finally` of `_run` -/
 
@@ -120,50 +82,16 @@ theorem C06_clean_at_idle (s : EState) :
       (∀ c ∈ ext, c.op ≠ "set" ∧ c.op ≠ "stage")) ∧
     (cleanup s).staged = [] ∧ (cleanup s).bundlers = [] ∧
     (∀ kb ∈ s.bundlers, ∀ ms ∈ kb.2.monitors, (kb.2.runId, ms.2) ∉ subsOf (cleanup s) ms.1) := by
-  obtain ⟨⟨mid, tail, hc, hq1, hq2⟩, hst, hb⟩ := cleanup_ledger s
-  refine ⟨⟨s.moved.map stopCall ++ mid ++ s.staged.map unstageCall ++ tail, by rw [hc]; simp, ?_, ?_, ?_⟩, hst, hb, ?_⟩
-  · intro n hn
-    simp only [List.mem_append, List.mem_map]
-    exact Or.inl (Or.inl (Or.inl ⟨n, hn, rfl⟩))
-  · intro n hn
-    simp only [List.mem_append, List.mem_map]
-    exact Or.inl (Or.inr ⟨n, hn, rfl⟩)
-  · intro c hc'
-    simp only [List.mem_append, List.mem_map] at hc'
-    rcases hc' with ((⟨n, _, rfl⟩ | h) | ⟨n, _, rfl⟩) | h
-    · simp [stopCall]
-    · have := hq1 c h; simp only [keyOp, Bool.or_eq_false_iff, beq_eq_false_iff_ne] at this
-      exact ⟨this.1.1, this.1.2⟩
-    · simp [unstageCall]
-    · have := hq2 c h; simp only [keyOp, Bool.or_eq_false_iff, beq_eq_false_iff_ne] at this
-      exact ⟨this.1.1, this.1.2⟩
-  · intro kb hkb ms hms
-    rw [cleanup_subsOf]
-    exact cleanupBody_no_monitor_subs s kb hkb ms hms
+  refine ⟨cleanup_ext s, cleanup_staged s, cleanup_bundlers s, ?_⟩
+  intro kb hkb ms hms
+  rw [cleanup_subsOf]
+  exact cleanupBody_no_monitor_subs s kb hkb ms hms
 
 /-- hence: every `set` ever logged is followed, later in the ledger, by a `stop` of that device (given
     the invariant `MovedInv`, kept by every command: `movedInv_runCommand`) -/
 theorem every_set_is_followed_by_a_stop (s : EState) (hi : MovedInv s) (pre post : List Call) (c : Call)
-    (hsplit : (cleanup s).calls = pre ++ c :: post) (hop : c.op = "set") : stopCall c.dev ∈ post := by
-  obtain ⟨⟨ext, hc, hmv, _, hno⟩, _⟩ := C06_clean_at_idle s
-  rw [hc] at hsplit
-  rcases List.append_eq_append_iff.mp hsplit with ⟨a', h1, h2⟩ | ⟨c', h1, h2⟩
-  · -- pre = s.calls ++ a' : the set would be inside the cleanup's part
-    have : c ∈ ext := by rw [h2]; simp
-    exact absurd hop (hno c this).1
-  · -- s.calls = pre ++ c', c :: post = c' ++ ext
-    cases c' with
-    | nil =>
-      simp only [List.nil_append] at h2
-      have : c ∈ ext := by rw [← h2]; simp
-      exact absurd hop (hno c this).1
-    | cons x xs =>
-      simp only [List.cons_append, List.cons.injEq] at h2
-      obtain ⟨hx, hpost⟩ := h2
-      subst hx
-      have hmem : c ∈ s.calls := by rw [h1]; simp
-      have := hmv c.dev (hi c hmem hop)
-      rw [hpost]; exact List.mem_append_right _ this
+    (hsplit : (cleanup s).calls = pre ++ c :: post) (hop : c.op = "set") : stopCall c.dev ∈ post :=
+  cleanup_allSetsStopped s hi pre c post hsplit hop
 
 /-- every device that is still staged gets its `unstage` after everything logged before, in
     particular after its last `stage` -/
@@ -175,6 +103,34 @@ theorem every_staged_device_is_unstaged (s : EState) (n : String) (hn : n ∈ s.
   refine ⟨pre, post, by rw [hc, hsplit, List.append_assoc], ?_⟩
   intro c hcm
   exact (hno c (by rw [hsplit]; simp [hcm])).2
+
+/-! ## lifted to whole calls -/
+
+/-- `MovedInv` holds along every execution: any plan (any generator behaviour), any device
+    specifications, any environment script, arrival bound and fuel -/
+theorem C06_invariant_along_call (maxArr : Nat) (sc : Script) (fuel : Nat) (s0 : EState) (plan : Gen) (h0 : s0.calls = []) :
+    MovedInv (schedule maxArr sc fuel (startCall s0 plan)) := by
+  apply schedule_mi
+  intro c hc; simp [startCall, h0] at hc
+
+/-- MAIN (end to end).  Whenever `RE(plan)` hands control back to its caller with the `_run` task
+    over (completion, failure, abort, stop, halt, failed pause -- every exit goes through the outer
+    finally), every `set` in the device ledger is followed by a `stop` of that device, `_staged` is
+    empty and no bundler is left: for every plan, device behaviour, script, arrival bound and fuel. -/
+theorem C06_call_returns_clean (maxArr : Nat) (sc : Script) (fuel : Nat) (s0 : EState) (plan : Gen) (h0 : s0.calls = []) :
+    RetGood (schedule maxArr sc fuel (startCall s0 plan)) := by
+  apply schedule_good
+  · intro c hc; simp [startCall, h0] at hc
+  · exact retGood_of_nobe rfl
+
+/-- the same for `RE.resume()` and for abort() / stop() / halt() issued while paused -/
+theorem C06_resume_returns_clean (maxArr : Nat) (sc : Script) (fuel : Nat) (s : EState) (hi : MovedInv s) :
+    RetGood (schedule maxArr sc fuel (startResume s)) :=
+  schedule_good maxArr sc fuel _ (movedInv_of_dv (startResume_dv s) hi) (retGood_of_nobe rfl)
+
+theorem C06_terminate_returns_clean (maxArr : Nat) (sc : Script) (fuel : Nat) (s : EState) (kind : String) (hi : MovedInv s) :
+    RetGood (schedule maxArr sc fuel (startTerminate s kind)) :=
+  schedule_good maxArr sc fuel _ (movedInv_of_dv (startTerminate_dv s kind) hi) (retGood_of_nobe rfl)
 
 /-! Non-vacuity: a state with a moved motor, a staged detector and the corresponding ledger. -/
 def demo : EState :=
